@@ -316,6 +316,41 @@ R"(
         type);
 }
 
+// escapes text taken from the schema so that it can be put inside a C++
+// character or string literal
+inline std::string escape_literal(const std::string_view text)
+{
+    std::string res;
+    res.reserve(text.size());
+    for(const auto ch : text)
+    {
+        switch(ch)
+        {
+        case '\\':
+            res.append("\\\\");
+            break;
+        case '"':
+            res.append("\\\"");
+            break;
+        case '\'':
+            res.append("\\'");
+            break;
+        case '\n':
+            res.append("\\n");
+            break;
+        case '\r':
+            res.append("\\r");
+            break;
+        case '\t':
+            res.append("\\t");
+            break;
+        default:
+            res.push_back(ch);
+        }
+    }
+    return res;
+}
+
 inline std::string make_string_constant(
     const std::string& const_value,
     const length_t type_length,
@@ -327,7 +362,7 @@ inline std::string make_string_constant(
     }
 
     std::string value;
-    value.append("\"").append(const_value);
+    value.append("\"").append(escape_literal(const_value));
     // add padding if necessary
     const auto padding_length = type_length - const_value.size();
     for(std::size_t i = 0; i != padding_length; i++)
@@ -352,7 +387,7 @@ inline std::string make_char_constant(
             constant_value, type_length, location);
     }
 
-    return fmt::format("'{}'", constant_value);
+    return fmt::format("'{}'", escape_literal(constant_value));
 }
 
 inline std::string numeric_literal_to_value(
